@@ -154,8 +154,11 @@ async def consume_plain(h, spec, rs, text):
     kw = {}
     if spec.get("decoy") is not None:
         kw["initial_value"] = rs.mat.obj(rs.tree.node(spec["decoy"]))
-    async for resp in h.engine.subscribe(text, operation_name=spec["op"], context=rs.ctx, variables=copy.deepcopy(spec["variables"]), **kw):
-        out.append(resp)
+    try:
+        async for resp in h.engine.subscribe(text, operation_name=spec["op"], context=rs.ctx, variables=copy.deepcopy(spec["variables"]), **kw):
+            out.append(resp)
+    except Exception as e:  # noqa - failures are to be *yielded* as errors, never raised out of the stream
+        raise Violation(spec, "subscribe raised %r after %d responses\nquery:\n%s\nvariables=%r" % (e, len(out), text, spec["variables"]), tag="raised")
     return out
 
 
@@ -233,6 +236,9 @@ def run_alternate(h, schema, spec_a, spec_b, order):
                 outs[k].append(await its[k].__anext__())
             except StopAsyncIteration:
                 done.add(k)
+            except Exception as e:  # noqa
+                sp = spec_a if k == "a" else spec_b
+                raise Violation(sp, "subscribe raised %r\nquery:\n%s\nvariables=%r" % (e, (pa if k == "a" else pb).text, sp["variables"]), tag="raised")
         return outs
 
     outs = run_async(go())
